@@ -433,6 +433,33 @@ def mon_c09(tr, actor="A", cap=None):
     if cap is not None:
         ex.check("C09", ch.cap == cap, "mailbox channel was created with capacity %d, requested %d" % (ch.cap, cap))
         ex.check("C09", ch.max_len <= cap, "mailbox held %d entries, capacity %d" % (ch.max_len, cap))
+    # accepted-but-not-yet-taken operations (a tell/stop that returned Ok, an ask whose message is in
+    # the mailbox) never exceed the capacity, at any instant of the run
+    if cap is not None:
+        outstanding = 0
+        counted = set()
+        for i, e in enumerate(tr.ev):
+            if e["ev"] == "accepted" and e["chan"] == "mailbox:" + actor:
+                key = ("m", tr.mid(e)) if e["what"] == "msg" else ("stop", i)
+                if key not in counted:
+                    counted.add(key)
+                    outstanding += 1
+            elif e["ev"] == "op_done" and e["op"][0] in ("tell", "tell_t", "stop") and e["op"][1] == actor and str(e["result"]).startswith("Ok"):
+                key = ("m", e["op"][2]) if e["op"][0] != "stop" else ("stopop", e["client"], e["i"])
+                if e["op"][0] == "stop":
+                    # a stop() that returned Ok has been accepted: if its marker is not in the mailbox yet
+                    # it is held somewhere else and still counts
+                    marker_in = any(x["ev"] == "accepted" and x["chan"] == "mailbox:" + actor and x["what"] == "stop" for x in tr.ev[:i])
+                    closed = tr.w.actors[actor]["mailbox"].closed
+                    if not marker_in and not any(x["ev"] in ("task_finished", "task_panicked") and x["task"] == tr.actor_task(actor).name for x in tr.ev[:i]):
+                        outstanding += 1
+                        counted.add(key)
+                elif key not in counted:
+                    counted.add(key)
+                    outstanding += 1
+            elif e["ev"] == "taken" and e["chan"] == "mailbox:" + actor:
+                outstanding -= 1
+            ex.check("C09", outstanding <= cap, "%d operations accepted but not yet taken, capacity %d" % (outstanding, cap))
     # a send never waits while a slot is free: at quiescence nobody is queued while permits exist
     ex.check("C09", not (ch.free > 0 and (ch.waitq or ch.granted) and not ch.closed), "a sender waits although %d slot(s) are free" % ch.free)
     for o in tr.ops().values():
